@@ -550,11 +550,16 @@ func runC25(c *Ctx) {
 	// R-NONCE-TTL
 	if pa := u.Func("ProofAuthenticate"); pa != nil {
 		for _, cs := range u.Calls(pa, Is("newNonceCache")) {
-			k, ok := durationMultipleOfSkew(u, cs.Arg(0))
-			need := int64(2_000_000_000) // the window tests accept ts ∈ [now-skew, now+skew] ⇒ a proof stays acceptable for 2·skew
-			r.Check(ok && k >= need, "R-NONCE-TTL", "ProofAuthenticate|retention", u.Pos(cs.Instr.Pos()),
-				"nonce retention = "+itoa(int(k/1_000_000_000))+"·skew ≥ the 2·skew acceptance window",
-				"nonce retention is "+u.Describe(cs.Arg(0))+" ("+itoa(int(k/1_000_000_000))+"·skew): a proof stamped now+skew is still inside the window at now+2·skew after its nonce was forgotten at now+skew — it can be replayed")
+			// retention as a linear function a·SkewSeconds + b (nanoseconds)
+			a, b, ok := linearInSkew(u, cs.Arg(0))
+			// The window tests compare whole seconds: floor(now) - ts ∈ [-skew, +skew]. A proof accepted at T0 with
+			// ts ≤ floor(T0)+skew stays acceptable while now < ts+skew+1 ≤ T0 + 2·skew + 1s, and the cache drops an
+			// entry at expiresAt <= now. So retention must be ≥ 2·skew + 1s.
+			sec := int64(1_000_000_000)
+			enough := ok && (a > 2*sec || (a == 2*sec && b >= sec))
+			r.Check(enough, "R-NONCE-TTL", "ProofAuthenticate|retention", u.Pos(cs.Instr.Pos()),
+				"nonce retention = "+fmtLin(a, b)+" ≥ 2·skew + 1s (whole acceptance window incl. its last second)",
+				"nonce retention is "+u.Describe(cs.Arg(0))+" = "+fmtLin(a, b)+": the window tests accept a timestamp in [now-skew, now+skew] at one-second granularity, so a proof stays acceptable for up to 2·skew+1s after first use; with a shorter retention it can be replayed after its nonce is forgotten")
 		}
 	}
 }
@@ -567,6 +572,48 @@ func containsRe(gs []string, re string) bool {
 		}
 	}
 	return false
+}
+
+func fmtLin(a, b int64) string {
+	sec := int64(1_000_000_000)
+	return itoa(int(a/sec)) + "·skew + " + itoa(int(b/sec)) + "s"
+}
+
+// linearInSkew evaluates v as a·SkewSeconds + b over constants, +, * and conversions.
+func linearInSkew(u *Unit, v ssa.Value) (a, b int64, ok bool) {
+	switch x := v.(type) {
+	case *ssa.Const:
+		k, isInt := ConstInt(x)
+		return 0, k, isInt
+	case *ssa.Convert:
+		return linearInSkew(u, x.X)
+	case *ssa.ChangeType:
+		return linearInSkew(u, x.X)
+	case *ssa.UnOp:
+		if x.Op == token.MUL && strings.HasSuffix(u.Describe(x), "SkewSeconds") {
+			return 1, 0, true
+		}
+	case *ssa.BinOp:
+		a1, b1, ok1 := linearInSkew(u, x.X)
+		a2, b2, ok2 := linearInSkew(u, x.Y)
+		if !ok1 || !ok2 {
+			return 0, 0, false
+		}
+		switch x.Op {
+		case token.ADD:
+			return a1 + a2, b1 + b2, true
+		case token.SUB:
+			return a1 - a2, b1 - b2, true
+		case token.MUL:
+			if a1 == 0 {
+				return a2 * b1, b2 * b1, true
+			}
+			if a2 == 0 {
+				return a1 * b2, b1 * b2, true
+			}
+		}
+	}
+	return 0, 0, false
 }
 
 // durationMultipleOfSkew recognises Duration(cfg.SkewSeconds) * K and returns K in ns.
